@@ -114,12 +114,17 @@ static Hideset *new_hideset(char *name) {
   return hs;
 }
 
+static bool hideset_contains(Hideset *hs, char *s, int len);
+
 static Hideset *hideset_union(Hideset *hs1, Hideset *hs2) {
   Hideset head = {};
   Hideset *cur = &head;
 
+  // A name is listed once, or the lists of tokens that go through the
+  // same macro again and again grow without bound.
   for (; hs1; hs1 = hs1->next)
-    cur = cur->next = new_hideset(hs1->name);
+    if (!hideset_contains(hs2, hs1->name, strlen(hs1->name)))
+      cur = cur->next = new_hideset(hs1->name);
   cur->next = hs2;
   return head.next;
 }
